@@ -403,7 +403,17 @@ def run_zone(case):
     else:
         c = Calendar()
         ev = Event()
-        if source == "zoneinfo":
+        if source in ("zoneinfo-fold", "dateutil-fold"):
+            # the second occurrence of a repeated wall time (fold=1): the text cannot say which occurrence is meant, so the
+            # parsed copy holds the first one - equality (same wall clock, same zone) does not depend on that
+            if source == "zoneinfo-fold":
+                from zoneinfo import ZoneInfo
+                tz = ZoneInfo("Europe/Berlin")
+            else:
+                from dateutil.tz import gettz
+                tz = gettz("Europe/Berlin")
+            ev.add("dtstart", datetime(2024, 10, 27, 2, 30, fold=1, tzinfo=tz))
+        elif source == "zoneinfo":
             from zoneinfo import ZoneInfo
             tz = ZoneInfo("America/New_York")
             ev.add("dtstart", datetime(2024, 6, 1, 10, tzinfo=tz))
@@ -434,7 +444,8 @@ def run_zone(case):
         else:
             a = c.walk("VEVENT")[0]["DTSTART"].dt
             b = d.walk("VEVENT")[0]["DTSTART"].dt
-            if a.utcoffset() != b.utcoffset():
+            # (fold survives neither the text nor pickle protocols below 4: the offset is compared for deep copies only there)
+            if a.utcoffset() != b.utcoffset() and not (label != "deepcopy" and source.endswith("-fold")):
                 fails.append(fail(f"zone-copy:{label}-offset-differs", case, a.utcoffset(), b.utcoffset()))
     return {"state": ("zone", provider, source), "trans": len(copies) + 1, "nontrivial": True, "fails": fails,
             "outcome": "zone-ok" if not any(not f.get("known") for f in fails) else "FAIL"}
@@ -581,7 +592,9 @@ def run(ctx):
 
     def gen_zone():
         for provider in env.PROVIDERS:
-            for source in ("custom", "zoneinfo", "pytz", "dateutil", "assembled-plain", "assembled-until", "assembled-params"):
+            for source in ("custom", "zoneinfo", "pytz", "dateutil", "assembled-plain", "assembled-until", "assembled-params", "zoneinfo-fold"):
+                if source == "zoneinfo-fold" and provider != "zoneinfo":
+                    continue  # copies must share the tzinfo OBJECT: Python never equates a repeated wall time across different tzinfo objects (PEP 495)
                 yield ("zone", provider, source)
 
     ctx.explore("trees", gen_trees, run_case)
